@@ -24,7 +24,7 @@ func ruleConfFuture() *Rule {
 			"(transitively) store to r.configurationResponseCh, and carries r.configuration as read after the call that applies the entry. " +
 			"Where the slot is answered with an error (leadership ends, Stop) the answer lies on the side of a comparison r.configuration.Index > r.commitIndex, the committed side answers successfully (D42). " +
 			"AddServer's no-change shortcut is reached only where Members[id] == address (D43). appendConfiguration in AddServer/RemoveServer lies behind a voter-exists predicate over the new configuration (D44).",
-		Floor: 7,
+		Floor: 8,
 		Run: func(p *Program) []Obligation {
 			const fname = "(*Raft).applyLoop"
 			fn := p.Func(fname)
@@ -554,6 +554,54 @@ func confShortcutAndVoters(p *Program, id string) []Obligation {
 		}
 		if fname != "(*Raft).AddServer" || len(fn.Params) < 3 {
 			continue
+		}
+		// (D49) AddServer creates a follower record only for a node that has none: the record of a member whose status
+		// changes (promotion) holds what the leader knows it has, and the new configuration cannot be committed without it
+		if follFld := p.Field("Raft.followers"); follFld != nil {
+			isFollowers := func(v ssa.Value) bool {
+				u, ok := v.(*ssa.UnOp)
+				if !ok || u.Op != token.MUL {
+					return false
+				}
+				fa, ok := u.X.(*ssa.FieldAddr)
+				return ok && fieldOf(fa.X.Type(), fa.Field) == follFld
+			}
+			for _, b := range fn.Blocks {
+				for _, in := range b.Instrs {
+					mu, ok := in.(*ssa.MapUpdate)
+					if !ok || !isFollowers(mu.Map) {
+						continue
+					}
+					ob := Obligation{Rule: id, Construct: "AddServer creates a follower record only for a node that has none", Pos: p.InstrPos(mu)}
+					guarded := false
+					for _, bb := range fn.Blocks {
+						iff, isIf := bb.Instrs[len(bb.Instrs)-1].(*ssa.If)
+						if !isIf {
+							continue
+						}
+						// if ok (comma-ok of r.followers[key]) goto A else B : the update lies on the not-ok side
+						ex, isEx := iff.Cond.(*ssa.Extract)
+						if !isEx || ex.Index != 1 {
+							continue
+						}
+						lk, isLk := ex.Tuple.(*ssa.Lookup)
+						if !isLk || !lk.CommaOk || !isFollowers(lk.X) || lk.Index != mu.Key {
+							continue
+						}
+						if t := bb.Succs[1]; len(t.Preds) == 1 && t.Dominates(b) {
+							guarded = true
+						}
+					}
+					if guarded {
+						ob.Verdict, ob.Detail = Discharged, "r.followers[id] is assigned only where the comma-ok lookup of the same key found nothing"
+					} else {
+						ob.Verdict = Violated
+						ob.Detail = "AddServer replaces the follower record of a node that may already be a member (promotion, demotion, change of address): its nextIndex/matchIndex are thrown away, " +
+							"the leader sends it the snapshot and the log again, and the new configuration — which may need this very node — cannot be committed until that is done"
+					}
+					out = append(out, ob)
+				}
+			}
 		}
 		// the shortcut: a successful answer that no appendConfiguration precedes
 		idPar, addrPar := fn.Params[1], fn.Params[2]
